@@ -199,7 +199,44 @@ func genGun(r *rand.Rand, inst int) string {
 			}
 		}
 		for j, k := 0, r.Intn(4); j < k; j++ {
-			switch x := r.Intn(12); {
+			switch x := r.Intn(16); {
+			case x == 12:
+				// one assert/response block with several conditions (status, body texts, header texts, size)
+				var cs []string
+				if r.Intn(2) == 0 {
+					cs = append(cs, pick(r, "s200", "s200", "s201", "s0"))
+				}
+				for jj, kk := 0, r.Intn(3); jj < kk; jj++ {
+					cs = append(cs, pick(r, "bT", "btok", "bn", "bZZ", "b0x"))
+				}
+				if r.Intn(2) == 0 {
+					cs = append(cs, pick(r, "yX-Kind~Resp", "yX-Kind~Resp-k", "yx-kind~-s", "yContent-Type~json", "yX-Tok~H", "yX-None~a", "yX-Tok~Q"))
+				}
+				if r.Intn(2) == 0 || len(cs) == 0 {
+					cs = append(cs, genSize(r))
+				}
+				post = append(post, "A"+strings.Join(cs, "+"))
+			case x == 13:
+				// a size assertion on its own (no body text in the same block)
+				post = append(post, genSize(r))
+			case x == 14:
+				// var/header with modifiers: the captured value is transformed before it is stored
+				var ms []string
+				for jj, kk := 0, 1+r.Intn(3); jj < kk; jj++ {
+					ms = append(ms, pick(r, "lower", "upper", fmt.Sprintf("substr(%d)", r.Intn(9)-4), fmt.Sprintf("substr(%d,%d)", r.Intn(9)-4, r.Intn(11)-5),
+						"replace(x,Y)", "replace(H,)", "replace(0,zz)", "substr(2,2)", "substr(-1)", "substr(1,-1)"))
+				}
+				if r.Intn(12) == 0 {
+					ms = append(ms, pick(r, "nosuch", "substr()", "substr(x)", "substr(1,2,3)", "replace(a)", "lower("))
+				}
+				vn := pick(r, "h", "h", "tok")
+				post = append(post, vn2h(vn)+"="+pick(r, "X-Tok", "x-tok", "X-Kind", "X-None")+"/"+strings.Join(ms, "/"))
+				if vn == "tok" {
+					v.post = append(v.post, "tok")
+				}
+			case x == 15:
+				post = append(post, pick(r, "yX-Kind~Resp-k", "yX-Tok~x", "yX-Kind~-s"))
+				post[len(post)-1] = "A" + post[len(post)-1]
 			case x <= 3:
 				post = append(post, "jtok=tok")
 				v.post = append(v.post, "tok")
@@ -276,6 +313,8 @@ func genGun(r *rand.Rand, inst int) string {
 				o = append(o, "e")
 			case x == 4:
 				o = append(o, pick(r, "s404", "s500", "s201", "s503"))
+			case x == 5:
+				o = append(o, "t")
 			default:
 				o = append(o, "k")
 			}
@@ -288,6 +327,14 @@ func genGun(r *rand.Rand, inst int) string {
 	}
 	return fmt.Sprintf("kind=gun inst=%d shots=%d L=%d%s rq=%s sc=%s or=%s", inst, shots, rows, l2, strings.Join(defs, ";"), strings.Join(scs, ";"), strings.Join(orc, "/"))
 }
+
+// genSize: a size condition z<op><val>; the scripted bodies are 2 ({}), 7 (truncated JSON) or about 20 bytes long
+func genSize(r *rand.Rand) string {
+	return "z" + pick(r, "e", "E", "l", "L", "g", "G") + fmt.Sprint(pick(r, "0", "2", "7", "15", "19", "20", "21", "22", "23", "30", "1000"))
+}
+
+// vn2h: the post code of a var/header extractor storing into variable vn
+func vn2h(vn string) string { return "h" + vn }
 
 // ---------------------------------------------------------------- kind=first
 
